@@ -1,4 +1,4 @@
-// GENERATED on every run by vlib/extract.py from /repo -- do not edit
+// GENERATED on every run by vlib/extract.py from /tmp/seedcheck-20768 -- do not edit
 #![allow(unused_imports, unused_variables, unused_mut, dead_code, unused_parens, unused_braces, non_snake_case)]
 use vstd::prelude::*;
 use core::cmp::Ordering;
@@ -237,6 +237,40 @@ pub proof fn lemma_lower_ascii_fixed(s: Seq<char>)
     ensures lower_ascii_seq(s) == s
 {
     assert(lower_ascii_seq(s) =~= s);
+}
+
+// ---- idempotence of lower-casing (C10, C12) ----
+/// A-validated (exhaustive over all scalar values): lower-casing the lower-case mapping of a char changes nothing
+#[verifier::external_body]
+pub proof fn axiom_lower_idem_char(c: char)
+    ensures lower_seq(u_to_lower(c)) == u_to_lower(c)
+{ }
+
+pub proof fn lemma_lower_seq_concat(a: Seq<char>, b: Seq<char>)
+    ensures lower_seq(a + b) == lower_seq(a) + lower_seq(b)
+    decreases b.len()
+{
+    if b.len() == 0 {
+        assert(a + b =~= a);
+        assert(lower_seq(a) + lower_seq(b) =~= lower_seq(a));
+    } else {
+        assert((a + b).drop_last() =~= a + b.drop_last());
+        assert((a + b).last() == b.last());
+        lemma_lower_seq_concat(a, b.drop_last());
+        assert(lower_seq(a + b) =~= lower_seq(a) + lower_seq(b));
+    }
+}
+
+/// lower-casing is a projection: applying it twice is applying it once
+pub proof fn lemma_lower_seq_idem(s: Seq<char>)
+    ensures lower_seq(lower_seq(s)) == lower_seq(s)
+    decreases s.len()
+{
+    if s.len() > 0 {
+        lemma_lower_seq_idem(s.drop_last());
+        axiom_lower_idem_char(s.last());
+        lemma_lower_seq_concat(lower_seq(s.drop_last()), u_to_lower(s.last()));
+    }
 }
 
 // ---- theory: split.rs ----
@@ -522,6 +556,21 @@ pub proof fn lemma_lt_asym(a: Seq<char>, b: Seq<char>)
     ensures !str_lt(b, a)
 {
     lemma_lex_flip(a, b);
+}
+
+/// in a strictly ascending list, the value paired with key `k` is the one at `pos_of(k)`
+pub proof fn lemma_has_pair_pos(v: Seq<(QualifierKey, SmallString)>, k: Seq<char>)
+    requires keys_sorted(v)
+    ensures forall|val: Seq<char>| has_pair(v, k, val) ==> 0 <= pos_of(v, k) < v.len() && v[pos_of(v, k)].0.0@ == k && v[pos_of(v, k)].1@ == val
+{
+    assert forall|val: Seq<char>| has_pair(v, k, val) implies 0 <= pos_of(v, k) < v.len() && v[pos_of(v, k)].0.0@ == k && v[pos_of(v, k)].1@ == val by {
+        let i = choose|i: int| 0 <= i < v.len() && #[trigger] v[i].0.0@ == k && v[i].1@ == val;
+        assert forall|j: int| 0 <= j < i implies str_lt(#[trigger] v[j].0.0@, k) by { assert(str_lt(v[j].0.0@, v[i].0.0@)); }
+        assert forall|j: int| i <= j < v.len() implies !str_lt(#[trigger] v[j].0.0@, k) by {
+            if j == i { lemma_lt_irrefl(k); } else { assert(str_lt(v[i].0.0@, v[j].0.0@)); lemma_lt_asym(k, v[j].0.0@); }
+        }
+        lemma_pos_of(v, k, i);
+    }
 }
 
 // ---- unit theory.cow  <= (contracts):0 ----
@@ -909,6 +958,46 @@ pub proof fn lemma_listing_covers(es: VS, m: Map<Seq<char>, Seq<char>>, k: Seq<c
     let i = choose|i: int| 0 <= i < es.len() && #[trigger] es[i].0 == k;
 }
 
+// ---- typed accessors of Checksum (C12) ----
+/// representation invariant of Checksum: every algorithm name is stored lower-cased
+pub open spec fn keys_lower(m: Map<Seq<char>, Seq<char>>) -> bool { forall|k: Seq<char>| #[trigger] m.contains_key(k) ==> lower_seq(k) == k }
+
+/// `m.get_mut(k)`
+#[verifier::external_body]
+pub fn x_hm_get_mut<'a, 'b>(m: &'b mut HashMap<SmallString, Cow<'a, str>>, k: &str) -> (r: Option<&'b mut Cow<'a, str>>)
+    ensures match r {
+        Some(v) => hm_view(*old(m)).contains_key(k@) && (*v)@ == hm_view(*old(m))[k@]
+            && hm_view(*final(m)) == hm_view(*old(m)).insert(k@, (*final(v))@),
+        None => !hm_view(*old(m)).contains_key(k@) && hm_view(*final(m)) == hm_view(*old(m)),
+    }
+{ unimplemented!() }
+/// `m.get(k)`
+#[verifier::external_body]
+pub fn x_hm_get<'a, 'b>(m: &'b HashMap<SmallString, Cow<'a, str>>, k: &str) -> (r: Option<&'b Cow<'a, str>>)
+    ensures match r {
+        Some(v) => hm_view(*m).contains_key(k@) && (*v)@ == hm_view(*m)[k@],
+        None => !hm_view(*m).contains_key(k@),
+    }
+{ unimplemented!() }
+/// `m.remove(k)`
+#[verifier::external_body]
+pub fn x_hm_remove<'a>(m: &mut HashMap<SmallString, Cow<'a, str>>, k: &str) -> (r: Option<Cow<'a, str>>)
+    ensures hm_view(*final(m)) == hm_view(*old(m)).remove(k@)
+{ unimplemented!() }
+
+pub proof fn lemma_ck_fold_keys_lower(ps: Seq<Seq<char>>)
+    requires ck_fold(ps) is Some
+    ensures keys_lower(ck_fold(ps)->Some_0)
+    decreases ps.len()
+{
+    if ps.len() > 0 {
+        lemma_ck_fold_keys_lower(ps.drop_last());
+        let p = ps.last();
+        let i = last_index_of(p, ':');
+        lemma_lower_seq_idem(p.subrange(0, i));
+    }
+}
+
 // ---- unit T.Checksum  <= purl/src/qualifiers/well_known.rs:99 ----
 pub struct Checksum<'a> {
     pub algorithms: HashMap<SmallString, Cow<'a, str>>,
@@ -925,16 +1014,34 @@ impl<'a> Checksum<'a> {
     pub open spec fn entries(&self) -> Map<Seq<char>, Seq<char>> { hm_view(self.algorithms) }
 }
 
-// ---- unit U-cktext.checksum_to_text  <= purl/src/qualifiers/well_known.rs:133 ----
-pub fn checksum_to_text<'a>(value: Checksum<'a>) -> (r: Result<SmallString, ParseError>)
-    ensures match r {
+// ---- unit theory.tryfrom  <= (contracts):0 ----
+// ---- R9: stub of std's TryFrom with a relation describing what an implementation returns ----
+pub trait TryFrom<T>: Sized {
+    type Error;
+    spec fn try_from_rel(t: T, r: Result<Self, Self::Error>) -> bool;
+    fn try_from(t: T) -> (r: Result<Self, Self::Error>)
+        ensures Self::try_from_rel(t, r);
+}
+pub assume_specification<T, E> [Option::<Result<T, E>>::transpose] (o: Option<Result<T, E>>) -> (r: Result<Option<T>, E>)
+    ensures match o {
+        None => r == Ok::<Option<T>, E>(None),
+        Some(Ok(x)) => r == Ok::<Option<T>, E>(Some(x)),
+        Some(Err(e)) => r == Err::<Option<T>, E>(e),
+    };
+
+impl<'a> TryFrom<Checksum<'a>> for SmallString {
+// ---- unit spec.cktext  <= (contracts):0 ----
+    type Error = ParseError;
+    open spec fn try_from_rel(value: Checksum<'a>, r: Result<SmallString, ParseError>) -> bool { match r {
         // refused exactly when some entry is not an even number of hex digits
         Err(e) => e == ParseError::InvalidQualifier && !all_values_hex(value.entries()),
         // otherwise: the entries in strictly ascending algorithm order, lower-case hex -- one text, for EVERY order in which the map yields them
         Ok(t) => all_values_hex(value.entries()) && t@ == canon_text(value.entries())
             // the text of a non-empty entry set is non-empty
             && ((exists|k: Seq<char>| #[trigger] value.entries().contains_key(k)) ==> t@.len() > 0),
-    }
+    } }
+// ---- unit U-cktext.checksum_to_text  <= purl/src/qualifiers/well_known.rs:133 ----
+fn try_from(value: Checksum<'a>) -> (r: Result<Self, Self::Error>)
 {
     proof { axiom_string_from(); }
     let ghost m = value.entries();
@@ -1001,13 +1108,17 @@ if !v.is_empty() {
         } }
 Ok(SmallString::from(v))
     }
+}
+impl<'a> TryFrom<&'a str> for Checksum<'a> {
+// ---- unit spec.ckparse  <= (contracts):0 ----
+    type Error = ParseError;
+    open spec fn try_from_rel(value: &'a str, r: Result<Checksum<'a>, ParseError>) -> bool { match r {
+        Ok(c) => ck_parse(value@) == Some(c.entries()) && keys_lower(c.entries()),
+        Err(e) => e == ParseError::InvalidQualifier && ck_parse(value@) is None,
+    } }
 // ---- unit U-ckparse.checksum_from_text  <= purl/src/qualifiers/well_known.rs:110 ----
 #[verifier::loop_isolation(false)]
-pub fn checksum_from_text<'a>(value: &'a str) -> (r: Result<Checksum<'a>, ParseError>)
-    ensures match r {
-        Ok(c) => ck_parse(value@) == Some(c.entries()),
-        Err(e) => e == ParseError::InvalidQualifier && ck_parse(value@) is None,
-    }
+fn try_from(value: &'a str) -> (r: Result<Self, Self::Error>)
 {
         let mut algorithms =
             x_hm_with_capacity(x_count_char(value, ',') + 1);
@@ -1036,9 +1147,44 @@ let Some((algorithm, bytes)) = x_rsplit_once(hash, ':') else {
             }
         }
         
-    proof { assert(ps.take(ps.len() as int) == ps); }
-Ok(Checksum { algorithms })
+    proof { assert(ps.take(ps.len() as int) == ps); lemma_ck_fold_keys_lower(ps); }
+Ok(Self { algorithms })
     }
+}
+// ---- unit T.ChecksumValue  <= purl/src/qualifiers/well_known.rs:241 ----
+pub struct ChecksumValue<'a>(pub &'a str);
+impl Checksum<'_> {
+// ---- unit U-ckacc.insert_raw  <= purl/src/qualifiers/well_known.rs:193 ----
+pub fn insert_raw(&mut self, algorithm: &str, value: String)
+        requires keys_lower(old(self).entries())
+        // C12: the entry is stored under the lower-cased algorithm, replacing an earlier entry spelled in any letter case
+        ensures final(self).entries() == old(self).entries().insert(lower_seq(algorithm@), value@), keys_lower(final(self).entries())
+{
+        proof { lemma_lower_seq_idem(algorithm@); }
+
+        if let Some(v) = x_hm_get_mut(&mut self.algorithms, algorithm) {
+            *v = Cow::Owned(value);
+        } else {
+            x_hm_insert(&mut self.algorithms, copy_as_lowercase(algorithm), Cow::Owned(value));
+        }
+    }
+// ---- unit U-ckacc.remove  <= purl/src/qualifiers/well_known.rs:213 ----
+pub fn remove(&mut self, algorithm: &str)
+        requires keys_lower(old(self).entries())
+        ensures final(self).entries() == old(self).entries().remove(algorithm@), keys_lower(final(self).entries())
+{
+        x_hm_remove(&mut self.algorithms, algorithm);
+    }
+// ---- unit U-ckacc.get_value  <= purl/src/qualifiers/well_known.rs:179 ----
+pub fn get_value<'b>(&'b self, algorithm: &str) -> (r: Option<ChecksumValue<'b>>)
+        ensures match r {
+            Some(v) => self.entries().contains_key(algorithm@) && v.0@ == self.entries()[algorithm@],
+            None => !self.entries().contains_key(algorithm@),
+        }
+{
+        x_hm_get(&self.algorithms, algorithm).map(|v: &'b Cow<'_, str>| -> (cv: ChecksumValue<'b>) ensures cv.0@ == v@ { ChecksumValue(v) })
+    }
+}
 
 // ---- consistency canary: must be REJECTED; if it verifies the assumptions are contradictory ----
 pub proof fn verif_canary_must_fail()
